@@ -91,6 +91,8 @@ def extreme_pointers():
     for n in (BIGN, "-" + BIGN, "0" + BIGN, "+" + BIGN):
         out += ["/" + n, "/a/" + n, "/" + n + "/a", "/#" + n, "/~" + n]
     out += ["/a" * 20000, "/" + "~0" * 20000, "/" + "\\u0041" * 5000, "/%41" * 3000]
+    # unpaired UTF-16 surrogates, as escapes and raw
+    out += ["/\\ud83d", "/\\ude00", "/\\ude00\\ud83d", "/\\ud83d/a", "/a\\ud83dx", "/\ud800", "/a/\udfff", "/\\ud83d\\ude00", "/\\uD83D\\u0041"]
     return out
 
 
@@ -101,6 +103,7 @@ def extreme_relative():
     # offsets just inside the interpreter's integer/string conversion limit (4300 digits): the sum crosses it
     for k in (4299, 4300, 4301):
         out += ["0+" + "9" * k, "0-" + "9" * k, "0+" + "9" * k + "#", "1+" + "9" * k + "/a"]
+    out += ["0/\\ud83d", "1/\\ude00/a", "0/\ud800", "0+1/\\ud83d"]
     return out
 
 
